@@ -466,7 +466,7 @@ func datetimeLeapYears(thorough bool) *core.Family {
 	var years []int64
 	span := int64(820)
 	if thorough {
-		span = 2420
+		span = 10500 // every year on both sides of the 4-digit / expanded-year switch
 	}
 	for y := -span; y <= span; y++ {
 		years = append(years, y)
@@ -530,7 +530,7 @@ func datetimeRender(thorough bool) *core.Family {
 		zones = zones[:0]
 		zones = append(zones, "Z", "", "+2400", "+0060", "+01:00")
 		for h := 0; h < 24; h++ {
-			for _, mi := range []int{0, 15, 30, 45, 59} {
+			for mi := 0; mi < 60; mi++ { // every offset of the day, to the minute
 				zones = append(zones, fmt.Sprintf("+%02d%02d", h, mi), fmt.Sprintf("-%02d%02d", h, mi))
 			}
 		}
